@@ -27,7 +27,7 @@ using namespace llbuild::basic;
 using namespace llbuild::buildsystem;
 
 static std::mutex gOut;
-static bool gDry = false, gPrintSignatures = false;
+static bool gDry = false, gPrintSignatures = false, gKeepGoing = false;
 static std::string hex(StringRef s) {
   if (s.empty()) return "-";
   static const char* d = "0123456789abcdef";
@@ -70,7 +70,9 @@ public:
   void hadCommandFailure() override {
     BuildSystemFrontendDelegate::hadCommandFailure();
     out("failure");
-    cancel();
+    // the stock command line front end cancels the build at the first failure; a client may
+    // also let independent work continue (--keep-going)
+    if (!gKeepGoing) cancel();
   }
   std::unique_ptr<Tool> lookupTool(StringRef) override { return nullptr; }
   void cycleDetected(const std::vector<core::Rule*>& cycle) override {
@@ -130,6 +132,7 @@ int main(int argc, char** argv) {
     else if (args[i] == "--pretend-remove") { record = true; pretend = true; }
     else if (args[i] == "--node") node = args[++i];
     else if (args[i] == "--dry") gDry = true;
+    else if (args[i] == "--keep-going") gKeepGoing = true;
     else if (args[i] == "--print-signatures") gPrintSignatures = true;
     else rest.push_back(args[i]);
   }
